@@ -45,13 +45,14 @@ def vec(xs):
 
 # ----------------------------------------------------------------------------- model checking
 
-def write_cfg(path, K, max_ops, max_segs, variant, dur, crop, nv, starts, emit=False, light=False):
+def write_cfg(path, K, max_ops, max_segs, variant, dur, crop, nv, starts, emit=False, light=False, mklocal="off"):
     with open(path, "w") as fh:
         fh.write("CONSTANTS\n")
         fh.write(f"  K = {K}\n  MaxOps = {max_ops}\n  MaxSegs = {max_segs}\n  CropVariant = \"{variant}\"\n")
         fh.write("  DurHalves = {" + ", ".join(map(str, dur)) + "}\n")
         fh.write("  CropQuarters = {" + ", ".join(map(str, crop)) + "}\n")
         fh.write(f"  NV = {nv}\n  StartVals = {{" + ", ".join(map(str, starts)) + "}\n")
+        fh.write(f"  MakeLocalMode = \"{mklocal}\"\n")
         fh.write("INIT Init\nNEXT Next\n")
         if not emit:
             fh.write("VIEW View\n")
@@ -98,6 +99,15 @@ def run_models(oc, tier, workdir):
                  "result": "rejected by TLC as required" if rejected else "NOT rejected"})
     if not rejected:
         raise V.ToolFailure("the upstream-crop spec mutant was not rejected by TLC: the refinement invariant is vacuous")
+    # beyond the listed properties: make_local() as coded (only g0 is reset).  Not a verdict - an observation kept in
+    # the evidence: TLC shows that it does not refine y(t) = x(0)^-1 x(t) on multi-segment splines.
+    cfg = os.path.join(workdir, "sm_mklocal.cfg")
+    write_cfg(cfg, 1, 2, 3, "fixed", [2, 4], [0, 1, 3, 5, 7, 9, 11, 14], 2, [0, 1], mklocal="coded")
+    r = V.run_tlc("SplineModel", cfg, workdir, workers=V.NCPU, timeout=600, xmx="12g")
+    info.append({"model": "SplineModel", "variant": "make_local as coded (outside the listed properties, observation only)", "K": 1,
+                 "MaxOps": 2, "distinct_states": r["distinct"],
+                 "result": ("does not refine x(0)^-1 x(t): TLC counterexample" if "is violated" in r["out"]
+                            else "refines x(0)^-1 x(t)" if "No error has been found" in r["out"] else "TLC did not finish")})
     oc.states += r["distinct"]
     return info
 
@@ -301,6 +311,11 @@ def random_program(rng, K, g, n_ops):
             a, b = max(ta, 0.0), min(tb, tmax)
             knots = [0.0] + [k - a for k in knots if a < k < b] + [b - a]
             tmax = b - a
+        lines += evals(0)
+    if rng.random() < 0.3:
+        # beyond the listed properties: make_local() as the last mutator (recorded and compared with the model of the
+        # code; what the curve should be afterwards is not stated by C12, so later evaluations are not judged)
+        lines.append("mklocal 0")
         lines += evals(0)
     return lines
 
